@@ -70,6 +70,12 @@ func mergeHeaders(baseHeaders, additionalHeaders map[string][]string) map[string
 		result[k] = v
 	}
 	for key, values := range additionalHeaders {
+		// header names are case-insensitive: a configured "content-type" replaces "Content-Type"
+		for k := range result {
+			if k != key && strings.EqualFold(k, key) {
+				delete(result, k)
+			}
+		}
 		result[key] = values
 	}
 	return result
